@@ -26,6 +26,54 @@ def equivalent(a, b, names):
     return None
 
 
+def flag_meaning(rhs, guard, init=None):
+    """'positive' if the assignment makes the flag mean "sign(literal) is false", 'negative' for the opposite, 'irrelevant' / 'unknown' otherwise"""
+    from facts import see_through, walk
+
+    def sign_truth(e):
+        # returns +1 if e is true exactly when sign(..) is true, -1 if exactly when it is false, None otherwise
+        e = see_through(e)
+        if not isinstance(e, dict):
+            return None
+        if e.get('k') == 'call' and callee_name(e) == 'sign':
+            return 1
+        if e.get('k') == 'un' and e.get('op') == '!':
+            t = sign_truth(e['e'])
+            return -t if t else None
+        if e.get('k') == 'bin' and e.get('op') in ('==', '!='):
+            for x, y in ((e['l'], e['r']), (e['r'], e['l'])):
+                t = sign_truth(x)
+                c = see_through(y)
+                if t and isinstance(c, dict) and c.get('k') == 'lit':
+                    eq_true = bool(c.get('v'))
+                    res_ = t if eq_true else -t
+                    return res_ if e['op'] == '==' else -res_
+        return None
+    r_ = see_through(rhs)
+    if guard is None:
+        t = sign_truth(r_)
+        if t is None:
+            if isinstance(r_, dict) and r_.get('k') == 'lit':
+                return 'irrelevant'       # a constant written without a sign test: judged through the guarded assignment
+            return 'unknown'
+        return 'positive' if t == -1 else 'negative'
+    g = None
+    for c in [guard] + [x for x in walk(guard)]:
+        g = sign_truth(c)
+        if g:
+            break
+    if not g or not (isinstance(r_, dict) and r_.get('k') == 'lit' and isinstance(r_.get('v'), bool)):
+        return 'unknown'
+    # under (sign is true) == (g == 1) the flag is set to r_.v; otherwise it keeps its initial value
+    flag_when_sign_true = r_['v'] if g == 1 else init
+    flag_when_sign_false = r_['v'] if g == -1 else init
+    if flag_when_sign_true is False and flag_when_sign_false is True:
+        return 'positive'
+    if flag_when_sign_true is True and flag_when_sign_false is False:
+        return 'negative'
+    return 'unknown'
+
+
 def callee_name(x):
     return (x.get('f') or '').split('::')[-1]
 
@@ -137,36 +185,45 @@ def run(src, tier, seed):
 
     # ---- R3 antecedent order
     r = res.rule('positive-pivot-first', 'ProofGraph::buildProofGraph assigns the antecedent that contains the pivot positively to the first slot', floor=1)
+    from facts import see_through, walk, path_of
+    from prims import as_assign
     bp = [f for f in fx.F.values() if f['name'].startswith('opensmt::ProofGraph::') and f.get('body') and any(is_call(x, 'setAnt1') for x in fwalk(f)) and any(is_call(x, 'setPivot') for x in fwalk(f))]
-    ok = False
+    if not bp:
+        raise AnalysisBroken('the proof-graph builder (setAnt1 + setPivot) was not found')
+    verdicts = []
     for f in bp:
         for n in fwalk(f):
-            if is_call(n, 'setAnt1') and n.get('a'):
-                a = n['a'][0]
-                from facts import see_through, walk
-                a0 = see_through(a)
-                if isinstance(a0, dict) and a0.get('k') == 'cond':
-                    cname = [x.get('n') for x in walk(a0['c']) if x.get('k') == 'ref']
-                    # the flag must be defined from the sign of the pivot's occurrence in the clause taken when the flag is true
-                    from prims import as_assign
-                    from facts import path_of
-                    for g in walk(f['body']):
-                        if g.get('k') == 'if' and not g.get('as') and any(x.get('k') == 'call' and callee_name(x) == 'sign' for x in walk(g['cond'])):
-                            for x in walk(g['then']):
-                                a_ = as_assign(x)
-                                if a_ and path_of(a_[0]) in cname:
-                                    # sign(l) != 0 (negative occurrence) must clear the flag, sign(l) == 0 must set it
-                                    c_ = see_through(g['cond'])
-                                    negative = isinstance(c_, dict) and ((c_.get('k') == 'bin' and c_.get('op') == '!=') or (c_.get('k') == 'call' and callee_name(c_) == 'sign'))
-                                    val = see_through(a_[1]).get('v') if isinstance(see_through(a_[1]), dict) else None
-                                    if (negative and val is False) or (not negative and val is True):
-                                        ok = True
-    if ok:
-        res.ok(r, 'buildProofGraph: setAnt1(pos_piv ? this : other) with pos_piv derived from the sign of the pivot literal')
-    elif not bp:
-        raise AnalysisBroken('the proof-graph builder (setAnt1 + setPivot) was not found')
+            if not (is_call(n, 'setAnt1') and n.get('a')):
+                continue
+            a0 = see_through(n['a'][0])
+            if not (isinstance(a0, dict) and a0.get('k') == 'cond'):
+                continue
+            flags = [x.get('n') for x in walk(a0['c']) if x.get('k') == 'ref']
+            if len(flags) != 1:
+                continue
+            flag = flags[0]
+            # meaning of the flag: "the tested occurrence of the pivot is positive" <=> flag, established by how it is written from sign(literal)
+            init = [d for d in fwalk(f) if d.get('k') == 'decl' and d.get('n') == flag]
+            init_v = see_through(init[0]['init']).get('v') if init and isinstance(see_through(init[0].get('init')), dict) else None
+            for g in walk(f['body']):
+                if g.get('as'):
+                    continue
+                a_ = as_assign(g)
+                if a_ and path_of(a_[0]) == flag:
+                    verdicts.append(flag_meaning(a_[1], None))
+                if g.get('k') == 'if' and any(x.get('k') == 'call' and callee_name(x) == 'sign' for x in walk(g['cond'])):
+                    for x in walk(g['then']):
+                        a2 = as_assign(x)
+                        if a2 and path_of(a2[0]) == flag:
+                            verdicts[-1:] = []      # replace the verdict recorded for the bare assignment by the guarded one
+                            verdicts.append(flag_meaning(a2[1], g['cond'], init_v))
+    verdicts = [v for v in verdicts if v != 'irrelevant']
+    if not verdicts or any(v == 'unknown' for v in verdicts):
+        raise AnalysisBroken('buildProofGraph: how the antecedent-order flag depends on the sign of the pivot occurrence is written in a form the rule does not know')
+    if all(v == 'positive' for v in verdicts):
+        res.ok(r, 'buildProofGraph: the flag that puts the clause into the first slot is true exactly for a positive pivot occurrence')
     else:
-        res.bad(r, 'pivot-polarity-convention', fx.loc(bp[0]), 'the proof-graph builder no longer orders the antecedents by the sign of the pivot occurrence: the ab rule and the assumed-literal rule '
+        res.bad(r, 'pivot-polarity-convention', fx.loc(bp[0]), 'the proof-graph builder puts the antecedent with the *negative* pivot occurrence into the first slot: the ab rule and the assumed-literal rule '
                 'read the first antecedent as the one with the positive pivot')
     # ---- incremental use: popped partitions leave the masks (shared with C06)
     import C06
